@@ -455,6 +455,9 @@ func ZZC09Broker() {
 
 	// ---------------- restart on the surviving data ----------------
 	st2 := st.Survivor()
+	// the restarted broker finds its sessions through SCAN, which redis answers in pages
+	// (possibly empty ones): everything in one page, or 1..2 keys per call
+	st2.ScanPage = zzrt.Choice(3)
 	srv2, err := zz9Boot(st2)
 	zzrt.Assert(err == nil, "restart-succeeds-on-every-intermediate-store-state")
 
